@@ -7,7 +7,7 @@ import itertools
 from core import simcase as S
 
 ID = "C01"
-LEAN_MODULES = ["AcnProofs.C01"]
+LEAN_MODULES = ["AcnProofs.C01", "AcnProofs.Lemmas.EventCorePilots", "AcnProofs.Lemmas.EventCoreSimFail"]
 DRIVER = "drv_C01"
 REQUIRED_THEOREMS = [
     "Acn.C01.prec_order", "Acn.C01.keyLt_strictWeakOrder", "Acn.C01.cfg0_valid", "Acn.C01.init_Inv",
@@ -15,6 +15,11 @@ REQUIRED_THEOREMS = [
     "Acn.C01.run_terminates", "Acn.C01.run_terminates_driver_fuel", "Acn.C01.inv_at_period", "Acn.C01.plugged_once", "Acn.C01.unplugged_once",
     "Acn.C01.history_sorted", "Acn.C01.history_complete", "Acn.C01.ev_history_keys", "Acn.C01.all_vacant_at_end",
     "Acn.C01.connected_iff", "Acn.C01.sim_body_core", "Acn.C01.sim_run_C01",
+    "Acn.C01.canonical_queue_meets_spec", "Acn.C01.body_preserves_Inv_any_queue",
+    "Acn.C01.run_terminates_any_queue", "Acn.C01.run_terminates_real_heap", "Acn.C01.runQ_canonical_eq_run",
+    "Acn.Sim.body_pilots", "Acn.Sim.run_pilots", "Acn.Sim.run_applied_eq_spec",
+    "Acn.C01.run_terminates_any_network", "Acn.C01.history_sorted_complete_any_network",
+    "Acn.C01.bodyG_chargingNet_eq_body", "Acn.C01.cfg1_validQ", "Acn.Sim.body_core_any",
 ]
 BUDGET = {"quick": 1200, "thorough": 15000, "search": 8000}
 TRUSTED = ["CPython heapq: heappop returns a <-minimal entry and keeps the rest (which one among equal "
@@ -139,11 +144,12 @@ def run_impl(case):
 
 
 def model_request(case):
-    return S.model_request(case, resume=bool(case.get("resume")))
+    # the model runs over the transcription of CPython's array heap: exact tie order
+    return S.model_request(case, resume=bool(case.get("resume")), queue="heap")
 
 
 def compare(case, obs, model):
-    return S.compare(case, obs, model)
+    return S.compare(case, obs, model, exact_ties=True)
 
 
 # ------------------------------------------------------------------ oracle: C01 stated on the implementation
